@@ -201,6 +201,18 @@ pub fn random_hay(r: &mut StdRng, pats: &Pats, ci: bool, maxlen: usize) -> Vec<u
                     h.push(b);
                 }
             }
+            4 if !pats.is_empty() => {
+                // a near miss: a whole pattern with one byte altered
+                let p = &pats[r.gen_range(0..pats.len())];
+                if p.len() >= 2 {
+                    let k = r.gen_range(0..p.len());
+                    let at = h.len();
+                    h.extend_from_slice(p);
+                    h[at + k] = alpha[r.gen_range(0..alpha.len())];
+                } else {
+                    h.push(alpha[r.gen_range(0..alpha.len())]);
+                }
+            }
             4..=6 => h.push(alpha[r.gen_range(0..alpha.len())]),
             7 => {
                 // neighbours of letters at the folding boundary
